@@ -148,6 +148,10 @@ async fn cell(set: Arc<CertSet>, n: usize, order: String, pattern: String, celli
     if let Err(e) = same_connection_round_trip(&stall_conn, &format!("/c17ns/same{cellid}")).await {
         return Err(fail("other-topic-blocked-on-same-connection", class, format!("topic {a} is stalled (publisher blocked after {sent} bytes, {n} registrations queued, {order}); the same client on another topic over the same connection: {e}")));
     }
+    // a topic that merely shares its last component with the stalled one is another topic too
+    if let Err(e) = round_trip(addr, &set, &format!("/c17alt/stall{cellid}"), Duration::from_secs(20)).await {
+        return Err(fail("other-topic-blocked", &format!("{class}:same-leaf-name"), format!("topic {a} is stalled ({n} registrations queued, {order}); a fresh client on /c17alt/stall{cellid} (same topic component, other namespace): {e}")));
+    }
     // the other topic must still work
     match round_trip(addr, &set, &b, Duration::from_secs(20)).await {
         Ok(d) => {
@@ -160,6 +164,42 @@ async fn cell(set: Arc<CertSet>, n: usize, order: String, pattern: String, celli
             class,
             format!("topic {a} is stalled (publisher blocked after {sent} bytes) with {n} further registrations queued ({order}); a fresh client on topic {b}: {e}"),
         )),
+    }
+}
+
+/// Peers of topic A that grant the server no credit at all on their streams (the answer to their
+/// registration can never be written). Everybody else must be unaffected.
+async fn zero_window_cell(set: Arc<CertSet>, n: usize, role: String, cellid: u64) -> Result<String, Fail> {
+    let class = format!("zero-window:{role}");
+    let setup = |what: &str, e: String| fail("setup", what, format!("{what}: {e}"));
+    let addr = net::start_server(&set).map_err(|e| setup("server", e.to_string()))?;
+    let a = format!("/c17ns/zw{cellid}");
+    let b = format!("/c17ns/free{cellid}");
+    let ta = TopicName::try_from(a.as_str()).unwrap();
+    round_trip(addr, &set, &format!("/c17ns/sanity{cellid}"), Duration::from_secs(20)).await.map_err(|e| setup("sanity round trip", e))?;
+    let mut held = Vec::new();
+    let mut conns = Vec::new();
+    for _ in 0..n {
+        let c = RawConn::connect_with_window(addr, &set.ca, Some(&set.client), 0).await.map_err(|e| setup("zero-window connect", e.to_string()))?;
+        let mut s = c.open().await.map_err(|e| setup("open", e.to_string()))?;
+        let frame = match role.as_str() {
+            "subscriber" => Frame::RegisterSubscriber(SubscriberPayload { topic: ta.clone(), retention_policy: 0, operations: vec![] }),
+            "publisher" => Frame::RegisterPublisher(PublisherPayload { topic: ta.clone(), retention_policy: 0, operations: vec![] }),
+            "replier" => Frame::RegisterReplier(ReplierPayload { topic: ta.clone() }),
+            _ => Frame::RegisterRequestor(RequestorPayload { topic: ta.clone() }),
+        };
+        s.send(frame).await.map_err(|e| setup("send registration", e.to_string()))?;
+        held.push(s);
+        conns.push(c);
+    }
+    // give the server time to get stuck on them, if it is going to
+    tokio::time::sleep(Duration::from_millis(300)).await;
+    let r = round_trip(addr, &set, &b, Duration::from_secs(20)).await;
+    drop(held);
+    drop(conns);
+    match r {
+        Ok(_) => Ok("other-topic-served".into()),
+        Err(e) => Err(fail("other-topic-blocked", &class, format!("{n} peer(s) registered as {role} on {a} without granting any flow-control credit on their stream (their registration cannot be answered); a fresh client on topic {b}: {e}"))),
     }
 }
 
@@ -181,6 +221,15 @@ fn cells(tier: &str) -> Vec<Value> {
             }
         }
     }
+    for role in ["subscriber", "publisher", "replier", "requestor"] {
+        for n in [1usize, 3] {
+            if tier != "thorough" && n == 3 && role != "subscriber" {
+                continue;
+            }
+            v.push(json!({"cell": id, "family": "zero-window", "peers_without_credit": n, "role": role}));
+            id += 1;
+        }
+    }
     v
 }
 
@@ -191,6 +240,9 @@ pub async fn run(tier: &str, replaying: bool) -> ! {
     let outs = run_matrix(cs, 6, |c| {
         let set = set.clone();
         async move {
+            if c["family"].as_str() == Some("zero-window") {
+                return (true, zero_window_cell(set, c["peers_without_credit"].as_u64().unwrap() as usize, c["role"].as_str().unwrap().to_string(), c["cell"].as_u64().unwrap()).await);
+            }
             let n = c["queued_registrations"].as_u64().unwrap() as usize;
             let order = c["order"].as_str().unwrap().to_string();
             let pattern = c["stalled_pattern"].as_str().unwrap_or("pubsub").to_string();
@@ -203,7 +255,7 @@ pub async fn run(tier: &str, replaying: bool) -> ! {
     finish(
         rep,
         outs,
-        "every cell of: number N of further registrations on the stalled topic in {0,(1,50,)99,100,101,102,(103,)150(,250)} x order {stall first then N registrations, N registrations first then stall} x stalled pattern {pub/sub: never-reading subscriber + flooding publisher; request/reply: never-reading bound replier + flooding requestor}; per cell a fresh real server, topic A stalled by a raw subscriber that never reads plus a raw publisher flooding 64 KiB frames until a send takes longer than 1 s, N raw subscriber registrations on A (each awaits its Ok; a new QUIC connection every 50 streams), then the flooding client itself must round-trip a message on another topic over the same connection, and a fresh real client opens subscriber + publisher on topic B and must round-trip a message, each within 20 s. non-trivial = N > 0",
+        "every cell of: number N of further registrations on the stalled topic in {0,(1,50,)99,100,101,102,(103,)150(,250)} x order {stall first then N registrations, N registrations first then stall} x stalled pattern {pub/sub: never-reading subscriber + flooding publisher; request/reply: never-reading bound replier + flooding requestor}; per cell a fresh real server, topic A stalled by a raw subscriber that never reads plus a raw publisher flooding 64 KiB frames until a send takes longer than 1 s, N raw subscriber registrations on A (each awaits its Ok; a new QUIC connection every 50 streams), then the flooding client itself must round-trip a message on another topic over the same connection, and a fresh real client opens subscriber + publisher on topic B and must round-trip a message, each within 20 s. Plus zero-window cells: 1 or 3 peers register on topic A in each of the four roles over connections that grant the server no flow-control credit on their streams (the answer to their registration can never be written); a fresh client must still round-trip a message on topic B. non-trivial = N > 0",
         "fault = misbehaving participants of one topic; enumerated exhaustively over the listed N and orders",
         json!({}),
         replaying,
